@@ -54,6 +54,26 @@ pub fn expand(template: &str, letter: char, allow_t: bool, features: &[String], 
     Some(out)
 }
 
+/// Templates that contain placeholder syntax of ANOTHER kind (which stays literal text) next
+/// to their own references.
+fn corner_menu(letter: char, with_t: bool) -> Vec<String> {
+    let l = letter;
+    let other = if l == 'L' { 'R' } else { 'L' };
+    let mut v = vec![
+        format!("B%{other}[0]:%{l}[0]"),
+        format!("%{l}[0],%{l}[1]"),
+        format!("%F[0]|%{l}[1]").replace("%F", if l == 'F' { "%L" } else { "%F" }),
+        format!("%{l}[1]%{l}[0]"),
+        format!("x%{l}?[1]"),
+    ];
+    if with_t {
+        v.push(format!("t:%{l}[1],%t"));
+    } else {
+        v.push(format!("B%t:%{l}[0]"));
+    }
+    v
+}
+
 fn menu(letter: char, with_t: bool) -> Vec<String> {
     let l = letter;
     let mut v = vec![
@@ -87,6 +107,14 @@ pub fn run(tier: Tier) -> i32 {
             inputs.push((r.clone(), cate));
         }
     }
+    // corner rows: feature values that look like placeholders (of this or another kind)
+    let corner_alphabet = ["a", "%L[1]", "%F[1]", "%R[0]", "%t", "50%t"];
+    let corner_rows: Vec<Vec<String>> = all_seqs(corner_alphabet.len(), 3).into_iter().map(|s| s.into_iter().map(|i| corner_alphabet[i].to_string()).collect()).collect();
+    let mut corner_inputs: Vec<(Vec<String>, u32)> = vec![];
+    for r in &corner_rows {
+        corner_inputs.push((r.clone(), 3));
+    }
+    let plain_inputs = inputs;
     let kinds = [(Kind::Unigram, 'F', true), (Kind::Left, 'L', false), (Kind::Right, 'R', false)];
     let mut tasks = vec![];
     for (ki, (_, letter, with_t)) in kinds.iter().enumerate() {
@@ -94,14 +122,24 @@ pub fn run(tier: Tier) -> i32 {
         let sets = all_seqs(m.len(), tier.pick(2, 3));
         for s in sets {
             if !s.is_empty() {
-                tasks.push((ki, s));
+                tasks.push((ki, s, false));
+            }
+        }
+        let m = corner_menu(*letter, *with_t);
+        for s in all_seqs(m.len(), 2) {
+            if !s.is_empty() {
+                tasks.push((ki, s, true));
             }
         }
     }
     let mut st = par_explore(tasks.len(), |ti, st| {
-        let (ki, set) = &tasks[ti];
+        let (ki, set, corner) = &tasks[ti];
         let (kind, letter, with_t) = kinds[*ki];
-        let m = menu(letter, with_t);
+        let m = if *corner { corner_menu(letter, with_t) } else { menu(letter, with_t) };
+        let inputs = if *corner { &corner_inputs } else { &plain_inputs };
+        if *corner {
+            st.count("corner_template_sets (placeholder text in values / other-kind placeholders in templates)");
+        }
         let templates: Vec<&String> = set.iter().map(|&i| &m[i]).collect();
         let mut def = String::new();
         for t in &templates {
@@ -202,6 +240,6 @@ pub fn run(tier: Tier) -> i32 {
     });
     crate::props::train::dict_level_c18(tier, &mut st);
     rep.rule = format!("state = (template set of 1-{} templates from a 12-template menu per kind (unigram %F/%F?/%t, left %L/%L?, right %R/%R?), all feature rows of length 0-3 over {{a,b,*,\"p,q\"}} x category id in {{0,3}} fed in sequence to one extractor); every expansion must be the string the reference expander produces (absent feature -> '*', optional reference on '*'/absent -> no feature), equal strings share an id, different strings never do, and the interned table agrees; distinct = distinct id tables. Dictionary level: for every really trained model of the C14 family, words whose reference (rewritten) %R / %L expansion tuples coincide share a left / right id, and the tuple listed for that id in bigram.left / bigram.right equals the expansion position by position or is *", tier.pick(2, 3));
-    rep.bounds = json!({"templates_per_set": tier.pick(2, 3), "menu": 12, "rows": inputs.len()});
+    rep.bounds = json!({"templates_per_set": tier.pick(2, 3), "menu": 12, "rows": plain_inputs.len(), "corner_rows": corner_inputs.len()});
     rep.finish(st, &["expansions_checked", "optional_reference_suppressed_the_feature", "models_trained", "rows_sharing_a_connection_class", "listed_context_features_compared"])
 }
